@@ -1571,6 +1571,87 @@ pub fn run(ctx: &mut Ctx) -> &'static str {
                 case_interp(ctx, idx, &single, nd, raw, 1, &plain_points(vec![vec![1.0, 0.5], vec![1.0, 1.0], vec![1.0, 0.0], vec![2.0, 0.5]]));
             }
         }
+        // N-D interpolators over a single value (`ndim()` is 0 for them whatever the array's own
+        // dimensionality): accepted with no grid, or with an empty first grid; the validated entry point
+        // must answer the empty point with that value, for every strategy it accepts
+        for (axes, dshape) in [
+            (vec![], vec![1usize]),
+            (vec![vec![], vec![1.0, 2.0]], vec![1, 1]),
+            (vec![vec![]], vec![1]),
+            (vec![vec![], vec![]], vec![1, 1]),
+            (vec![], vec![]),
+            (vec![], vec![1, 1, 1]),
+        ] {
+            let t = Table { axes, data: vec![7.0], dshape, multilinear: None };
+            for (s, raw) in [(1usize, false), (0, false), (2, false), (1, true)] {
+                let Some(idx) = ctx.begin() else { continue };
+                let pts = plain_points(vec![vec![], vec![0.5]]);
+                let line = format!("in {} {} {} {}", if raw { "r" } else { "v" }, strat(s).1, table_text(&t, true), pts_text(&pts.pts));
+                ctx.count("nd_single_value");
+                match build(&t, true) {
+                    Err(is_err) => {
+                        if !is_err {
+                            ctx.fail(idx, "interp_nd/single_value_panics", format!("InterpND::new panicked on a single value with grid {:?}", t.axes));
+                        }
+                        ctx.emit(idx, line, if is_err { "new err".to_string() } else { "new panic".to_string() });
+                    }
+                    Ok(b) => {
+                        let outs = eval(b, raw, s, &pts.pts);
+                        // the empty point is the only valid one: the value for Linear / None, never a panic
+                        if !raw {
+                            let want_ok = s <= 1;
+                            if outs[0] == Out::Panic || outs[1] == Out::Panic || (want_ok && outs[0] != Out::Ok(7.0)) {
+                                ctx.fail(idx, "interp_nd/single_value_panics", format!("N-D interpolator over a single value, grid {:?}, shape {:?}, accepted by new: interpolate(&[], {}) gave {:?}", t.axes, t.dshape, strat(s).1, outs[0]));
+                            }
+                        }
+                        ctx.emit(idx, line, outs.iter().map(|o| o.text()).collect::<Vec<_>>().join(" "));
+                    }
+                }
+            }
+        }
+        // every small N-D configuration: shapes up to two dimensions with extents 1..2, grid vectors of 0..2 axes
+        // drawn from {[], [5], [0,1]}, a handful of points, Linear and None: whatever `new` accepts must not panic
+        // on the validated path (this enumeration is what exposes the single-value defect)
+        {
+            let shapes: Vec<Vec<usize>> = vec![vec![], vec![1], vec![2], vec![1, 1], vec![1, 2], vec![2, 1], vec![2, 2]];
+            let axes_pool: Vec<Vec<f64>> = vec![vec![], vec![5.0], vec![0.0, 1.0]];
+            let mut grids: Vec<Vec<Vec<f64>>> = vec![vec![]];
+            for a in &axes_pool {
+                grids.push(vec![a.clone()]);
+                for b in &axes_pool {
+                    grids.push(vec![a.clone(), b.clone()]);
+                }
+            }
+            let pts = plain_points(vec![vec![], vec![5.0], vec![0.5], vec![5.0, 0.5], vec![0.5, 5.0], vec![0.5, 0.5], vec![5.0, 5.0], vec![2.0]]);
+            for sh in &shapes {
+                let total: usize = sh.iter().product();
+                for g in &grids {
+                    for s in [1usize, 0] {
+                        let Some(idx) = ctx.begin() else { continue };
+                        let t = Table { axes: g.clone(), data: (0..total).map(|i| 3.0 + i as f64).collect(), dshape: sh.clone(), multilinear: None };
+                        let line = format!("in v {} {} {}", strat(s).1, table_text(&t, true), pts_text(&pts.pts));
+                        ctx.count("nd_small_enumeration");
+                        match build(&t, true) {
+                            Err(is_err) => {
+                                if !is_err {
+                                    ctx.fail(idx, "interp_nd/new_panics_on_short_grid", format!("InterpND::new panicked: grid {:?}, shape {:?}", g, sh));
+                                }
+                                ctx.emit(idx, line, if is_err { "new err".to_string() } else { "new panic".to_string() });
+                            }
+                            Ok(b) => {
+                                ctx.count("nd_small_enumeration_accepted");
+                                let outs = eval(b, false, s, &pts.pts);
+                                if let Some(k) = outs.iter().position(|o| *o == Out::Panic) {
+                                    let key = if total == 1 { "interp_nd/single_value_panics" } else { "interp/panic_validated" };
+                                    ctx.fail(idx, key, format!("N-D interpolator grid {:?}, shape {:?}, accepted by new: interpolate({:?}, {}) panicked", g, sh, pts.pts[k], strat(s).1));
+                                }
+                                ctx.emit(idx, line, outs.iter().map(|o| o.text()).collect::<Vec<_>>().join(" "));
+                            }
+                        }
+                    }
+                }
+            }
+        }
         // ND constructor: fewer grids than dimensions, no grid at all
         if let Some(idx) = ctx.begin() {
             // shape (3,3) with a single grid: built by hand because Table derives the shape from the axes
